@@ -13,6 +13,7 @@ From PowHsm Require Import Gen.SrcM.
 From PowHsm Require Import Proofs.SrcEquivDongleM.
 From PowHsm Require Import Proofs.SrcEquivPinM.
 From PowHsm Require Import Proofs.SrcEquivBringupM.
+From PowHsm Require Import Proofs.SrcEquivSgxM.
 Open Scope N_scope.
 
 (* device policy: 8 alphanumeric characters, at least one letter (tied to the generated character tables by closed checks) *)
@@ -189,5 +190,12 @@ Theorem C10_source_handle_bootloader_is_model :
          srcm_HSM2ProtocolLedger___handle_bootloader (proto_obj fields) w =
          mres (fun _ : unit => VNone) (handle_bootloader KLedger w).
 Proof. exact (@srcm_handle_bootloader_ok). Qed.
+
+(* HSM2DongleSGX.new_pin as translated = the model's SGX branch on every world *)
+Theorem C10_source_sgx_new_pin_is_model :
+  forall (self : pv) (pin : bytes) (w : world),
+         wf_bytes pin ->
+         srcm_HSM2DongleSGX__new_pin self (VBytes pin) w = mres VBool (new_pin KSgx pin w).
+Proof. exact (@srcm_sgx_new_pin_ok). Qed.
 
 Example C10_nonvacuous : True. Proof. exact I. Qed. (* object-level and history-level runs closed by vm_compute in Proofs/C10.v *)
